@@ -22,6 +22,7 @@ fn space_for(tier: Tier) -> (Space, usize) {
             s.ast_range("LP", 1, 3, 32, 5);
             s.ast_range("ALT", 1, 3, 32, 4);
             s.ast_range("FX", 1, 4, 32, 6).ast_range("HI", 1, 4, 32, 4).ast_range("DUP", 1, 4, 16, 4);
+            s.ast_range("G", 1, 5, 64, 4).ast_range("BR", 1, 3, 64, 4);
             (s, 3)
         }
         Tier::Thorough => {
@@ -29,6 +30,7 @@ fn space_for(tier: Tier) -> (Space, usize) {
             s.ast_range("LP", 1, 4, 32, 6);
             s.ast_range("ALT", 1, 4, 32, 4);
             s.ast_range("FX", 1, 4, 32, 6).ast_range("HI", 1, 4, 32, 4).ast_range("DUP", 1, 4, 16, 4);
+            s.ast_range("G", 1, 6, 64, 4).ast_range("BR", 1, 4, 64, 4);
             // deeper / longer layers restricted to patterns without a quantifier over a
             // possibly-empty body and without nested quantifiers
             s.ast_range("K", 6, 6, 512, 203).ast_range("CL", 5, 5, 128, 203).ast_range("GC", 6, 6, 256, 204);
@@ -78,7 +80,16 @@ impl Check for C02 {
                 Some(p) => p,
                 None => return,
             };
-            if parsed.ast.has_backref() {
+            // back-references: only in the layers that are here for them, outside the
+            // disputed positions, and judged by the strict clause alone (the
+            // compositional language of the weak clause is not defined for them)
+            let with_backref = parsed.ast.has_backref();
+            let backref_layer = scope_name.starts_with("BR") || (scope_name.starts_with('G') && !scope_name.starts_with("GC"));
+            if with_backref != backref_layer {
+                return;
+            }
+            if with_backref && (parsed.ast.backref_in_disputed_position() || parsed.ast.has_nullable_loop()) {
+                out.inc("backref_disputed_skipped");
                 return;
             }
             if (restriction >= 1 && parsed.ast.has_nullable_loop()) || (restriction >= 2 && parsed.ast.quant_depth() >= 2) {
@@ -136,7 +147,7 @@ impl Check for C02 {
                     let sem = Sem { s: chars, f: fl, ucd: &ctx.ucd };
                     let mut pos = 0usize;
                     let mut weak_ok = true;
-                    for (st, en) in &got {
+                    for (st, en) in got.iter().filter(|_| !with_backref) {
                         if *st < pos || en < st {
                             out.fail("C02", &case, "OverlapOrDescending", "ascending non-overlapping spans", &common::show_spans(&got), "");
                             weak_ok = false;
@@ -164,7 +175,7 @@ impl Check for C02 {
                         }
                         pos = if en > st { *en } else { *en + 1 };
                     }
-                    if weak_ok && pos <= chars.len() {
+                    if weak_ok && !with_backref && pos <= chars.len() {
                         // no further non-empty-start match may exist after the last reported one
                         if pos < chars.len() {
                             if let Some((l, _)) = sem.lang_leftmost(&parsed.ast, pos) {
